@@ -147,16 +147,8 @@ type scanObs struct {
 	WF        string `json:"wf,omitempty"`     // accessor inconsistency found while collecting
 	Via       string `json:"via,omitempty"`    // "raw" | "adapter"
 	Overrun   bool   `json:"overrun,omitempty"` // more positions than entries ever inserted
-}
-
-func seqTag(s uint64) string {
-	switch {
-	case s == math.MaxUint64:
-		return "seq=maxuint64"
-	case s == 0:
-		return "seq=0"
-	}
-	return "seq=other"
+	// Positioned: Valid() right after SeekToFirst/Seek/SeekToLast
+	Positioned bool `json:"positioned"`
 }
 
 func mutTag(m bool) string {
@@ -256,16 +248,21 @@ func (v *tview) checkScan(o *scanObs) *viol {
 			delete(need, d)
 			if cnt[d] < n {
 				newer := 0
+				holdsMax := "no-seq-maxuint64"
 				for q := range v.ents {
 					if v.ents[q].idx > e.idx && v.ents[q].idx <= o.Lo {
 						newer++
+					}
+					if v.ents[q].seq == math.MaxUint64 && v.ents[q].idx <= o.Lo {
+						// a mutable table's snapshot counter wraps to 0 at 2^64-1 (known finding)
+						holdsMax = "table-holds-seq-maxuint64"
 					}
 				}
 				kind := "missing-entry"
 				if o.HasTarget || !o.Complete {
 					kind = "missing-entry-after-seek"
 				}
-				return &viol{pre + kind + "/" + seqTag(d.seq), fmt.Sprintf(
+				return &viol{pre + kind + "/" + holdsMax, fmt.Sprintf(
 					"%v (history position <= %d, %d later insertions also completed before the iterator was created) was inserted %d times before the iterator was created but yielded %d times; yielded %d positions, complete=%v, target=%x",
 					d, o.Lo, newer, n, cnt[d], len(ys), o.Complete, o.Target)}
 			}
